@@ -18,4 +18,7 @@ for ID in "$@"; do
   OR=""
   if [ -n "$FIRST" ] && [ -f "$FIRST" ]; then OR=$(jq -r '.violation.oracle' "$FIRST" 2>/dev/null); fi
   echo "  $ID exit=$RC violations=$V oracle=$OR"
+  if [ -n "${SAVE_REGRESS:-}" ] && [ -n "$FIRST" ] && [ -f "$FIRST" ] && ! echo "$FIRST" | grep -q "/regress/"; then
+    mkdir -p "/verif/regress/$ID"; cp "$FIRST" "/verif/regress/$ID/$(basename "$PATCH" .patch | cut -c1-60).json"
+  fi
 done
